@@ -34,6 +34,7 @@ func (c *Ctx) borrow(run func(*Ctx), match func(o *Obligation) bool) int {
 // after testing them to be zero.
 func c03Extras3(c *Ctx) {
 	w := c.W
+	c03Extras4(c)
 	nullBytesRule(c, "z/x509")
 	if fn := w.Fn("z/x509.ParseRevocationList"); fn != nil {
 		c.Sites++
@@ -94,6 +95,7 @@ func c03Extras3(c *Ctx) {
 // certificate must be the parent's subject octets, not a re-marshalling of the decoded name).
 func c04Extras3(c *Ctx) {
 	w := c.W
+	c04Extras4(c)
 	fn := w.Fn("z/x509.subjectBytes")
 	if fn == nil {
 		c.Undecided("R-PROV", "x509.subjectBytes", "anchor", "-", "not found")
@@ -129,6 +131,7 @@ func c04Extras3(c *Ctx) {
 // subject and the key are equal.
 func c11Extras3(c *Ctx) {
 	w := c.W
+	freshChainRule(c)
 	if fn := w.Fn("(*z/verifier.Graph).AddCert"); fn != nil {
 		// the lookup that starts the fix-up
 		isFixupLookup := func(in ssa.Instruction) bool {
@@ -241,6 +244,7 @@ func sigParamsTableRule(c *Ctx, fnName string) {
 // setDefaultValue accepted the field, so that a DEFAULT the encoder omitted is installed again at all three sites.
 func c18Extras3(c *Ctx) {
 	w := c.W
+	bitStringPureRule(c)
 	digitArgsRule(c)
 	fn := w.Fn("z/encoding/asn1.parseField")
 	if fn == nil {
